@@ -279,7 +279,8 @@ def r124_zpt(chk, m):
     # fact 1: every start-tag writer of the engine escapes attribute values (quotes included), whatever they look like
     writers = [(c, f) for c in mod.classes.values() for name, f in sorted(c.methods.items()) if name.startswith('tagAsText')]
     need(len(writers) >= 3, 'the start-tag writers of simpleTAL (tagAsText*) were not found')
-    values = [('href', 'x"y<z&w'), ('title', 'Q&amp;A "x" onmouseover="y'), ('alt', "it's &lt; > &#60;")]
+    values = [('href', 'x"y<z&w'), ('title', 'Q&amp;A "x" onmouseover="y'), ('alt', "it's &lt; > &#60;"), ('name', 'Say "hi" onmouseover="alert(1)'),
+              ('id', 'plain')]
     for c, f in writers:
         chk.analysed(f)
         key = 'simpleTAL %s.%s escapes attribute values' % (c.name, f.name)
